@@ -5,6 +5,7 @@ from world import amounts, enc_frac, amount_value, enc_f64, dec_f64, f64_next, e
 
 ID = "C05"
 LEAN_MODULES = ["QtyModel.Props.C05", "QtyModel.Props.Backends"]
+HARNESS_GROUPS = ('g_derived',)
 RULE = ("every derived operator instance x every operand unit pair x amounts built so that the result magnitude lands "
         "exactly on, one ulp/last digit below and above every unit scale of the result type, plus zero, negative and "
         "random results; and _fit driven directly on every type with the same sweep; non-trivial = result magnitude non-zero")
